@@ -485,6 +485,31 @@ def breaking_variants(root):
         nth(lambda s: isinstance(s, ast.Expr) and ast.unparse(s).startswith('chunks.append(')), 'self.tail = chars')
     add(H, 'detailed_chunks_iter', 'R-CHUNK-LAST', 'one-based chunk loop with the zero-based last test',
         nth_expr(lambda n: isinstance(n, ast.Call) and ast.unparse(n) == 'range(nb_chunks)'), 'range(1, nb_chunks + 1)')
+    # ---- round 9
+    add(ND, 'unflag', 'R-ACCESSOR-TABLE', 'mask clears every higher bit too',
+        nth(lambda s: isinstance(s, ast.AugAssign)), 'data[register] &= (1 << pos) - 1')
+    add(T, 'Traph.__encode', 'R-ENCODED', 'LRUs stripped while encoding',
+        nth(lambda s: isinstance(s, ast.Return) and 'encode' in ast.unparse(s)), 'return string.strip().encode(self.encoding)')
+    add(T, 'Traph.__add_page', 'R-PAGE-REPORT', 'fresh report returned on the no-prefix path',
+        nth(lambda s: isinstance(s, ast.Expr) and 'warnings.warn' in ast.unparse(s)),
+        lambda n, src: seg(src, n) + '\n            return node, TraphWriteReport()')
+    add(L, 'LRUTrie.windup_lru', 'R-LRU-ASSEMBLY', 'gives up on nodes that have a tail',
+        nth(lambda s: isinstance(s, ast.Assign) and ast.unparse(s.targets[0]) == 'lru'),
+        lambda n, src: 'if node.has_tail():\n            return None\n        ' + seg(src, n))
+    add(T, 'Traph.get_page_degree', 'R-DEGREE-FLAGS', 'rows de-duplicated before counting',
+        nth_expr(lambda n: isinstance(n, ast.Call) and isinstance(n.func, ast.Name) and n.func.id == 'len'),
+        lambda n, src: 'len(set(tuple(sorted(x[:2])) for x in ' + seg(src, n.args[0]) + '))')
+    add(T, 'Traph.delete_webentity', 'R-PREFIX-EDIT', 'consistency check skipped without a weid',
+        nth_expr(lambda n: isinstance(n, ast.If) and ast.unparse(n.test) == 'check_for_corruption'),
+        lambda n, src: seg(src, n).replace('if check_for_corruption:', 'if check_for_corruption and weid:', 1))
+    add(H, 'lru_variations', 'R-VARIATIONS', 'no www form for schemes without twin',
+        nth(lambda s: isinstance(s, ast.If) and ast.unparse(s.test) == 'https_var'), 'if not https_var:\n        return variations\n    variations.append(https_var)')
+    add(T, 'Traph.expand_prefix', 'R-VARIATIONS', 'short cut for single hosts',
+        nth(lambda s: isinstance(s, ast.Return)), lambda n, src: 'if prefix.count(b"|h:") < 2:\n            return [prefix]\n        ' + seg(src, n))
+    add('traph/link_store/node.py', 'LinkStoreNode.read', 'R-PRIMITIVES', 'cursor-relative read of a stub',
+        nth_expr(lambda n: isinstance(n, ast.Call) and ast.unparse(n) == 'self.storage.read(block)'), 'self.storage.read(block if block else None)')
+    add(T, 'Traph.get_webentities_links_iter', 'R-FILTER-AGREE', 'pages with a recent link head passed over',
+        nth_expr(lambda n: isinstance(n, ast.Call) and ast.unparse(n) == 'node.has_links(out=out)'), '(node.has_links(out=out) and node.links(out=out) < limit)')
     return out
 
 
